@@ -18,7 +18,7 @@ ASSUMPTIONS = [
     "the strict reader (C02's specification) judges the repaired file; the document an edit script denotes is computed by the generator on the object model (pdfgen), independently of fix-qdf and of its model",
     "QDF files above 150 kB are not used (the extracted list-based reader and model are slow on them)",
     "edit scripts: byte insertions/deletions inside stream data, key insertion/change/removal in top-level dictionaries (also of object-stream members), comments/blank lines, stale numbers in the parts fix-qdf regenerates, appended objects; renumbering edits (deleting objects) are outside the manual's contract and not generated",
-    "object-stream dictionaries: fix-qdf recomputes /Length /N /First; every other key (the writer only ever emits /Extends) must survive the repair unchanged and no key may appear; /Extends edits keep the chains acyclic (ISO 32000 7.5.7); known finding C17-F5 (a key added by hand behind the /Type /ObjStm line is dropped) is re-observed by an aimed edit on every file with several object streams and is accepted only when exactly the hand-added keys are missing",
+    "object-stream dictionaries: fix-qdf recomputes /Length /N /First; every other key (the writer only ever emits /Extends; others are added by hand in aimed edits, before and behind the /Type /ObjStm line) must survive the repair unchanged and no key may appear; /Extends edits keep the chains acyclic (ISO 32000 7.5.7); C17-F5 (a key added by hand behind the /Type /ObjStm line was dropped) is repaired in /repo and these edits are its regression inputs",
     "known finding C17-F1 (an `endstream` line inside stream data) is re-observed on a dedicated input; the inputs of the repaired C17-F2 (marker text inside a string or a longer name, fix e1b84020) stay in the run as regression inputs; F3 (--newline-before-endstream with object streams) and F4 (--preserve-unreferenced keeps original object streams) when the option sample contains them; files of these classes are not used as bases for edit scripts",
 ]
 
@@ -177,7 +177,6 @@ class Edited:
         self.trailer = dict(sd.trailer)
         self.script = []
         self.counter = 0
-        self.hand_keys = {}       # object stream -> keys added by hand to its dictionary behind the /Type /ObjStm line
 
     def idx(self):
         return qdf_index(self.lines)
@@ -499,8 +498,6 @@ def ed_objstm_key(rng, e, only=None, before_type=None):
     li = o.c0 + 1 if before else rng.randint(o.c0 + 2, o.c1 - 1)
     e.lines.insert(li, b"  /" + key + b" " + pdfgen.ser(v) + b"\n")
     e.exp[o.num].d[key] = v
-    if not before:
-        e.hand_keys.setdefault(o.num, set()).add(key)
     e.script.append("add key /%s to the dictionary of object stream %d %s its /Type /ObjStm line (line %d)" % (key.decode(), o.num, "before" if before else "behind", li + 1))
     return True
 
@@ -609,11 +606,7 @@ def doc_problems(e, sd):
             if isinstance(want, Stream) and isinstance(have, Stream):
                 dw = {k: v for k, v in want.d.items() if k not in (b"Length", b"First")}
                 dh = {k: v for k, v in have.d.items() if k not in (b"Length", b"First")}
-                hk = e.hand_keys.get(n, set())
-                if hk and dw != dh and {k: v for k, v in dw.items() if k not in hk} == dh and all(isinstance(have.d.get(k), int) for k in (b"Length", b"First")):
-                    # known finding C17-F5: exactly the keys added by hand behind the /Type line are gone, nothing else differs
-                    probs.append("C17-F5: object stream %d: the key(s) %s added by hand to its dictionary are gone from the repaired file" % (n, sorted(k.decode() for k in hk)))
-                elif dw != dh or not all(isinstance(have.d.get(k), int) for k in (b"Length", b"First")):
+                if dw != dh or not all(isinstance(have.d.get(k), int) for k in (b"Length", b"First")):
                     probs.append("dictionary of object stream %d: expected %s (and integer /Length /First), repaired file has %s" % (n, objstm_dict_text(dw), objstm_dict_text(have.d)))
         elif k == "xref":
             if not (isinstance(have, Stream) and have.d.get(b"Type") == Name(b"XRef")):
@@ -1274,7 +1267,6 @@ def run(chk):
     rb2 = run_both(runner, [r[1] for r in rb], wd, "ee")
     nontriv = set()
     nedits = {}
-    f5_seen = 0
     for (i, ep, e), (ist, ipath, mst, mpath), r, (ist2, ipath2, mst2, mpath2) in zip(ecases, rb, sr, rb2):
         name, p, kind, cfg = jobs[i]
         case = {"input": p, "input_kind": kind, "argv": ["qpdf", "--static-id"] + cfg + [p, "out.qdf"], "edit_script": e.script,
@@ -1293,18 +1285,15 @@ def run(chk):
             continue
         probs = doc_problems(e, filecheck.StrictDoc(r, ipath))
         if probs:
-            chk.violation(dict(case, kind="property-fails-on-implementation", why="the repaired file does not denote the edited document", differences=probs),
-                          signature="C17:objstm-dict-key-dropped" if all(x.startswith("C17-F5: ") for x in probs) else "edit-doc")
-            if not all(x.startswith("C17-F5: ") for x in probs):
-                continue
-            f5_seen += 1
+            chk.violation(dict(case, kind="property-fails-on-implementation", why="the repaired file does not denote the edited document", differences=probs), signature="edit-doc")
+            continue
         if ist2 != "0" or not same_file(ipath, ipath2):
             chk.violation(dict(case, kind="property-fails-on-implementation", why="repairing the repaired file changes it (not idempotent)"), signature="edit-idempotent")
             continue
         nontriv.add((name, " ".join(cfg), tuple(e.script)))
     chk.count("edited-qdf", len(ecases), nontriv, samples=[{"input": jobs[c[0]][0], "options": " ".join(jobs[c[0]][3]), "script": c[2].script} for c in ecases[:3]])
     chk.cov["parts"]["edited-qdf"]["edits_per_script"] = nedits
-    chk.cov["parts"]["edited-qdf"]["known_finding_F5_cases"] = f5_seen
+    chk.cov["parts"]["edited-qdf"]["scripts_adding_objstm_dict_keys"] = sum(1 for c in ecases if any("to the dictionary of object stream" in x and "/VerifO" in x for x in c[2].script))
     chk.cov["parts"]["edited-qdf"]["scripts_editing_extends"] = sum(1 for c in ecases if any("/Extends" in x for x in c[2].script))
     chk.cov["parts"]["edited-qdf"]["scripts_editing_objstm_members"] = sum(1 for c in ecases if any("member of object stream" in x for x in c[2].script))
     chk.cov["parts"]["edited-qdf"]["on_files_with_extends_chains"] = sum(1 for c in ecases if jobs[c[0]][2] == "extends")
